@@ -372,6 +372,10 @@ func init() {
 				ids := g.mixedList(hz, vz, g.n(8), 2)
 				th, tv := hz+g.R.Range(-4, 3), vz+g.R.Range(-4, 4)
 				th, tv = max64(0, min64(35, th)), max64(0, min64(35, tv))
+				if h := g.huge(); h > 0 && hz >= 6 {
+					ids = g.cluster(hz, vz, h)
+					th, tv = max64(0, hz-g.R.Range(0, 2)), max64(0, vz-g.R.Range(0, 2))
+				}
 				if g.R.Chance(1, 4) && len(ids) > 1 {
 					ids = append(ids, ids[g.R.Intn(len(ids))])
 				}
@@ -413,6 +417,9 @@ func init() {
 		px, py, pz := g.R.Range(0, m-1), g.R.Range(0, m-1), g.vIndex(vz)
 		var ids []string
 		np := 1 + g.R.Intn(3)
+		if g.R.Chance(1, 30) {
+			np = 6 + g.R.Intn(10) // many parent groups
+		}
 		for i := 0; i < np; i++ {
 			keep := 9
 			if g.R.Chance(1, 2) {
@@ -523,7 +530,15 @@ func init() {
 		Gen: func(g *Gen) *Call {
 			hz, vz := g.zoom(0, 35), g.zoom(0, 35)
 			h, v := g.R.Range(0, 2), g.R.Range(0, 2)
-			return &Call{Op: "nlayer", IDs: g.cluster(hz, vz, g.n(6)), Ints: []int64{h, v}}
+			ids := g.cluster(hz, vz, g.n(6))
+			if g.R.Chance(1, 3) && hz >= 2 && hz <= 33 && vz >= 2 && vz <= 33 {
+				ids = g.mixedList(hz, vz, g.n(6), 2) // lists mixing zooms
+				g.shuffleStrings(ids)
+			}
+			if len(ids) > 30 {
+				h, v = min64(h, 1), min64(v, 1)
+			}
+			return &Call{Op: "nlayer", IDs: ids, Ints: []int64{h, v}}
 		},
 		Exec: func(c *Call, a *Args) Result { return strs(operated.GetNspatialIdsAroundVoxcels(a.IDs, i64(c, 0), i64(c, 1))) }})
 
@@ -698,7 +713,7 @@ func init() {
 		}})
 	genQVs := func(g *Gen) []QV {
 		qz, vz := g.zoom(1, 20), g.zoom(1, 20)
-		n := 1 + g.R.Intn(6)
+		n := g.n(6)
 		base := g.R.Range(0, pow2(2*qz)-1)
 		rangeMode := g.R.Chance(1, 2)
 		mixedQ := g.R.Chance(1, 3)
@@ -776,7 +791,10 @@ func init() {
 			m := pow2(hz)
 			bx, by := g.R.Range(0, m-1), g.R.Range(0, m-1)
 			bz := off>>uint(max64(0, exp-tvz)) + g.R.Range(0, 8)
-			n := 1 + g.R.Intn(6)
+			n := g.n(6)
+			if g.R.Chance(1, 25) {
+				n = 27 + g.R.Intn(120) // a block of tiles, several columns and rows, overlapping heights
+			}
 			var ts [][5]int64
 			mixed := g.R.Chance(1, 3) && hz >= 2 && hz <= 33
 			for i := 0; i < n; i++ {
@@ -787,7 +805,11 @@ func init() {
 					ts = append(ts, [5]int64{h, mod(bx, 4) + g.R.Range(0, 1), mod(by, 4) + g.R.Range(0, 1), tvz, max64(0, min64(pow2(tvz)-1, bz+g.R.Range(0, 1)))})
 					continue
 				}
-				ts = append(ts, [5]int64{hz, mod(bx+g.R.Range(-1, 1), m), mod(by+g.R.Range(-1, 1), m), tvz, z})
+				w := int64(1)
+				if n > 20 {
+					w = 3
+				}
+				ts = append(ts, [5]int64{hz, mod(bx+g.R.Range(-w, w), m), mod(by+g.R.Range(-w, w), m), tvz, z})
 			}
 			if g.R.Chance(1, 4) && len(ts) > 1 {
 				ts = append(ts, ts[g.R.Intn(len(ts))])
